@@ -59,7 +59,8 @@ def cases(tier, seed):
         out.append({"kind": ["uncoupled", "exact2", "commuting",
                              "consistency"][i % 4], "seed": seed, "idx": i,
                     "tier": tier})
-    nm = 1 if tier == "quick" else 4
+    nm = 2 if tier == "quick" else 10      # chain lengths 2,5,3,4,6 (a
+    #                 two-site chain has an EMPTY odd layer in every step)
     for i in range(nm):
         out.append({"kind": "modes", "seed": seed, "idx": i, "tier": tier})
     perms = list(itertools.permutations(range(3)))
@@ -349,7 +350,7 @@ def run_modes(case):
     tmpd = tempfile.mkdtemp(prefix="vp_c10_")
     violations, cells, monitors = [], [], {}
     try:
-        base = {"seed": 1000 * case["seed"] + i, "n": 4 + i % 3, "steps": 2,
+        base = {"seed": 1000 * case["seed"] + i, "n": [2, 5, 3, 4, 6][i % 5], "steps": 2,
                 "order": 1 + i % 2, "perm": None, "log": None}
         ref = None
         worst = 0.0
